@@ -1003,7 +1003,8 @@ theorem keepingHandlers_init' (lines cols : Int) : KeepingHandlers
 /-- A state with nobody observing SIGWINCH and no further terminal. -/
 theorem swOk_fresh (top : Top) (h1 : top.sw = #[{}]) (h2 : top.swFirst = none) (h3 : top.swHandler = false) (h4 : top.xterms = #[])
     (h5 : top.fail = none) : SwOk top := by
-  refine ⟨h5, [], ⟨by rw [h2]; trivial, List.nodup_nil, by simp, ?_, by simp, by rw [h1, h4]; rfl, by rw [h2, h3]; rfl⟩, by simp⟩
+  refine ⟨h5, [], ⟨by rw [h2]; trivial, List.nodup_nil, by simp, ?_, by simp, by rw [h1, h4]; rfl, by rw [h2, h3]; rfl,
+    by intro k x hx; rw [h4] at hx; simp at hx⟩, by simp⟩
   intro c _
   unfold swNext swObs swNode
   rw [h1]
